@@ -34,7 +34,7 @@ F7_MARK = "[F7 source x,y dropped]"
 ZERO_LEG_MARK = "[zero-length leg]"
 DUP_MARK = "[duplicate solution: both endpoints on one internal boundary]"
 SCAN_MARK = "[found with a 1/32 degree launch-angle scan]"
-LAUNCH_MARK = "[mirror image of the LAUNCH direction of the arriving sub-path]"
+LAUNCH_MARK = "[leaves at the LAUNCH angle of the arriving sub-path, not its arrival angle]"
 REL = 1e-9        # image-geometry comparisons: pure double arithmetic on O(1e4) numbers
 
 
@@ -695,8 +695,16 @@ def check_chain(sol, idx, a, b, stack, lay, max_ref, geom):
         e = np.asarray(p.emitted_direction, dtype=float)
         r = np.asarray(p.received_direction, dtype=float)
         if not near_vertical:
-            _in_plane(e, hunit, "emitted direction of sub-path %d" % i, idx, geom, 1e-9 + derr[i])
-            _in_plane(r, hunit, "received direction of sub-path %d" % i, idx, geom, 1e-9 + derr[i])
+            try:
+                _in_plane(e, hunit, "emitted direction of sub-path %d" % i, idx, geom, 1e-9 + derr[i])
+                _in_plane(r, hunit, "received direction of sub-path %d" % i, idx, geom, 1e-9 + derr[i])
+            except Violation as v:
+                # an exponential sub-path takes its azimuth from its own two end points: closed-form
+                # noise (F17) larger than its horizontal reach turns it round
+                reach = float(np.hypot(T_[i][0] - F[i][0], T_[i][1] - F[i][1]))
+                if sp["cls"] != "UniformIce" and cb_total >= 0.5 * reach:
+                    raise Violation(str(v) + " " + F17_MARK)
+                raise
         # horizontal progress is along the track (no sub-path runs backwards)
         dh = T_[i][:2] - F[i][:2]
         if hunit is not None and not near_vertical:
@@ -744,7 +752,10 @@ def check_chain(sol, idx, a, b, stack, lay, max_ref, geom):
             mark = ""
             if bad:
                 e0 = np.asarray(paths[i].emitted_direction, dtype=float)
-                if float(np.linalg.norm(e - np.array([e0[0], e0[1], -e0[2]]))) <= 1e-9:
+                miss = float(np.linalg.norm(e - np.array([r[0], r[1], -r[2]])))
+                # (after a turning sub-path the launch angle has been flipped twice)
+                cand = np.array([e0[0], e0[1], -e0[2]]) if paths[i].direct else e0
+                if float(np.linalg.norm(e - cand)) <= max(1e-9, 1e-2 * miss):
                     mark = " " + LAUNCH_MARK
                 elif float(np.linalg.norm(e - np.array([r[0], r[1], -r[2]]))) <= 1e-9 + derr_f17[i] + derr_f17[i + 1]:
                     mark = " " + F17_MARK
@@ -1056,7 +1067,6 @@ def check_split_uniform(case, rec):
         cl.add("phantom_reflection")
     if any(st_["n_trans"] for st_ in stats):
         cl.add("transmission")
-    z_hi, z_lo = max(a[2], b[2]), min(a[2], b[2])
     rec.case(case, nontrivial=any(st_["n_trans"] for st_ in stats), classes=sorted(cl))
 
 
@@ -1349,21 +1359,37 @@ def _fermat_uniform(a, b, stack):
             slabs.append((sp["n"], t))
     if not slabs:
         return None
-    # Snell invariant p: sum_k t_k p / sqrt(n_k^2 - p^2) = rho, monotone in p on [0, min n)
+    # Unknown u = tan(theta) in the layer(s) of smallest index (well conditioned up to grazing
+    # incidence); Snell invariant p = n_min u / sqrt(1 + u^2); rho(u) = sum_k t_k tan(theta_k)
+    # is monotone in u.
     n_min = min(n for n, _ in slabs)
 
-    def span(p):
-        return sum(t * p / math.sqrt(n * n - p * p) for n, t in slabs) - rho
+    def tans(u):
+        p = n_min * u / math.sqrt(1 + u * u)
+        out = []
+        for n, t in slabs:
+            if n == n_min:
+                out.append((u, math.sqrt(1 + u * u)))             # tan, 1/cos
+            else:
+                c2 = n * n - p * p
+                out.append((p / math.sqrt(c2), n / math.sqrt(c2)))
+        return p, out
+
+    def span(u):
+        return sum(t * tc[0] for (n, t), tc in zip(slabs, tans(u)[1])) - rho
     if rho == 0:
-        p = 0.0
+        u = 0.0
     else:
-        hi_p = n_min * (1 - 1e-16)
-        if span(hi_p) < 0:
-            return None        # not representable: grazing beyond double precision
-        p = scipy.optimize.brentq(span, 0.0, hi_p, xtol=1e-15, rtol=4 * EPS, maxiter=500)
-    opt = sum(n * t * n / math.sqrt(n * n - p * p) for n, t in slabs)
-    geo = sum(t * n / math.sqrt(n * n - p * p) for n, t in slabs)
-    return dict(optical=opt, length=geo, p=p)
+        u_hi = 1e15
+        if span(u_hi) < 0:
+            return None
+        u = scipy.optimize.brentq(span, 0.0, u_hi, xtol=1e-300, rtol=4 * EPS, maxiter=1000)
+    p, tc = tans(u)
+    opt = sum(n * t * x[1] for (n, t), x in zip(slabs, tc))
+    geo = sum(t * x[1] for (n, t), x in zip(slabs, tc))
+    # conditioning of n_k^2 - p^2 in layers whose index is close to (not equal to) the smallest
+    cond = max([1.0] + [n * n / (n * n - p * p) for n, t in slabs if n != n_min])
+    return dict(optical=opt, length=geo, p=p, cond=cond)
 
 
 def check_chain_case(case, rec):
@@ -1398,8 +1424,9 @@ def check_chain_case(case, rec):
         if fm is not None and plain:
             s = plain[0][0]
             res = _residual_budget(s.paths)
-            require(abs(float(s.tof) * C - fm["optical"]) <= 1e-9 * fm["optical"] + 2 * res and
-                    abs(float(s.path_length) - fm["length"]) <= 1e-6 * fm["length"] + 1e-9 + 2 * res * 1e3,
+            rel = 1e-9 + 8 * EPS * fm["cond"]
+            require(abs(float(s.tof) * C - fm["optical"]) <= rel * fm["optical"] + 2 * res and
+                    abs(float(s.path_length) - fm["length"]) <= 1e3 * rel * fm["length"] + 1e-9 + 2 * res * 1e3,
                     "reflection-free solution: c*tof = %r, length %r; Fermat's principle gives optical path %r, "
                     "length %r; %s", float(s.tof) * C, float(s.path_length), fm["optical"], fm["length"], geom)
             cl.add("fermat_checked")
